@@ -361,7 +361,7 @@ def run(chk, replay=None):
         for tb in printed_json(r, "ITABLE"):
             tb["inverse"] = True
             tabs.append(tb)
-    ms = [1 << s for s in range(0, 17)]      # every dimension in both tiers (the tiers differ in the number of probes per dimension)
+    ms = [1 << s for s in range(0, 19)]      # every dimension up to 2^18 in both tiers (the tiers differ in the number of probes per dimension)
     jobs = [("FFT probes m=%s" % ms[i::7], drive, (ms[i::7], quick)) for i in range(7)] + [("table binding", drive_tables, (tabs,)),
                                                                                               ("index helpers", drive_helpers, (quick,)),
                                                                                               ("*_simple over all dimensions in one process", drive_simple_sequence, (quick,))]
